@@ -629,6 +629,12 @@ func (n node) compact(lo uint64) int {
 	zeroOut(n[keyOffset(left):keyOffset(right)])
 	n.setNumKeys(left)
 
+	// The max key is always kept, because the parent refers to this node by it. If its value is
+	// less than lo, the value must not stay retrievable: turn the entry into a placeholder.
+	if left > 0 && n.key(left-1) == mk && n.val(left-1) < lo {
+		n.setAt(valOffset(left-1), 0)
+	}
+
 	// If the only key we have is the max key, and its value is less than lo, then we can indicate
 	// to the caller by returning a zero that it's OK to drop the node.
 	if left == 1 && n.key(0) == mk && n.val(0) < lo {
